@@ -12,6 +12,7 @@ INVARIANT NoEmptyPara
 INVARIANT ParasSeparated
 INVARIANT NoDupStaysUnique
 INVARIANT NoBlobDuplication
+INVARIANT ReplaceLaws
 INVARIANT DocWellFormed
 PROPERTY ErrAtomic
 PROPERTY CommentsStay
